@@ -35,6 +35,10 @@ def term_classes():
     return {k: c for k, c in all_classes().items() if issubclass(c, T.Term)}
 
 
+from pypika_tortoise import functions as _F  # noqa: E402
+from pypika_tortoise.enums import SqlTypes as _SqlTypes  # noqa: E402
+
+
 class _Enc(enum.Enum):
     utf8 = "utf8"
 
@@ -136,6 +140,15 @@ def term_zoo():
     add("Index", 0, lambda f: T.Index("idx"))
     add("Parameter", 0, lambda f: T.Parameter("?"))
     add("Parameter.idx", 0, lambda f: T.Parameter(idx=2))  # positional: the placeholder style is the dialect's
+    # constructor parameters that usually receive a constant, given a term / a library singleton instead
+    add("functions.Extract.part", 2, lambda f: _F.Extract(f[0], f[1]))
+    add("functions.Cast.sqltype", 1, lambda f: _F.Cast(f[0], _SqlTypes.VARCHAR))
+    add("functions.Cast.sqltype_len", 1, lambda f: _F.Cast(f[0], _SqlTypes.VARCHAR(24)))
+    add("functions.Count.star", 1, lambda f: _F.Count(T.Star(f[0].table)))
+    add("functions.Count.distinct", 1, lambda f: _F.Count(f[0]).distinct())
+    add("AnalyticFunction.strkey", 2, lambda f: T.AnalyticFunction("ANF", f[0]).over("grp", f[1]))
+    add("AnalyticFunction.strarg", 2, lambda f: T.AnalyticFunction("ANF", "lit", f[0]).over(f[1]))
+    add("Function.strarg", 1, lambda f: T.Function("FN", "lit", f[0]))
     add("QueryBuilder", 2, lambda f: Query.from_(f[0].table).select(f[0]).where(f[1] == 1))
     add("_SetOperation", 2, lambda f: Query.from_(f[0].table).select(f[0]).union(Query.from_(f[1].table).select(f[1])))
     covered = {"Field", "Star", "Negative", "ValueWrapper", "JSON", "Values", "LiteralValue", "NullValue",
